@@ -246,6 +246,24 @@ fn all_cases(thorough: bool) -> Vec<Case> {
     for ct in [Some("text/plain"), Some("application/json"), None, Some("multipart/form-data; boundary=x"), Some("application/x-www-form-urlencodedx")] {
         out.push(Case { position: "content-type", ty: "form endpoint".into(), what: format!("{ct:?}"), req: put("/u/string", ct, fbody), want: None });
     }
+    // ---- optional scan parameters of a paginated endpoint (first page): present-but-undecodable
+    // values, the empty value included, are refused
+    for (field, ty) in [("n", "u32"), ("i", "i8"), ("c", "color"), ("b", "bool"), ("s", "string")] {
+        for lit in literals(ty) {
+            let want: Option<zoo9::ScanP> = match field {
+                "n" => lit.parse::<u32>().ok().map(|v| zoo9::ScanP { n: Some(v), ..Default::default() }),
+                "i" => lit.parse::<i8>().ok().map(|v| zoo9::ScanP { i: Some(v), ..Default::default() }),
+                "c" => color_from(&lit).map(|v| zoo9::ScanP { c: Some(v), ..Default::default() }),
+                "b" => lit.parse::<bool>().ok().map(|v| zoo9::ScanP { b: Some(v), ..Default::default() }),
+                _ => Some(zoo9::ScanP { s: Some(lit.clone()), ..Default::default() }),
+            };
+            let enc = pct(lit.as_bytes());
+            out.push(Case { position: "scan-params", ty: format!("Option<{ty}>"), what: format!("{field}={lit:?}"), req: get(&format!("/page?{field}={enc}"), ""), want: want.as_ref().map(echo) });
+            // the same beside a valid limit
+            out.push(Case { position: "scan-params", ty: format!("Option<{ty}>"), what: format!("limit=5&{field}={lit:?}"), req: get(&format!("/page?limit=5&{field}={enc}"), ""), want: want.as_ref().map(echo) });
+        }
+    }
+    out.push(Case { position: "scan-params", ty: "none".into(), what: "no parameters".into(), req: get("/page", ""), want: Some(echo(&zoo9::ScanP::default())) });
     let mut weird = b"PUT /j/string HTTP/1.1\r\nhost: h\r\ncontent-length: 9\r\ncontent-type: application/js\xf6n\r\n\r\n".to_vec();
     weird.extend_from_slice(jbody);
     out.push(Case { position: "content-type", ty: "json endpoint".into(), what: "non-ASCII content-type bytes".into(), req: weird, want: None });
@@ -330,6 +348,82 @@ fn versioned_cases(ctx: &Ctx, cn: &Cn, samples: &Samples) {
     }
 }
 
+/// Undecodable bodies over HTTP/2: the body is what all DATA frames carry together - an empty
+/// DATA frame in the middle does not end it, so garbage after it still makes the body invalid.
+fn h2_cases(ctx: &Ctx, cn: &Cn) -> serde_json::Value {
+    use vh::h2raw::*;
+    let two_json = |b: &[u8]| serde_json::from_slice::<Two>(b).ok().map(|v| echo(&v));
+    let two_form = |b: &[u8]| serde_urlencoded::from_bytes::<Two>(b).ok().map(|v| echo(&v));
+    let srv = LiveServer::start(zoo9::api(&[]), zoo9::ZooCtx::default(), ServerOpts { default_body_max: 4096, ..Default::default() }).unwrap_or_else(|e| machinery_failure(&e));
+    let Ok(mut conn) = connect_plain(srv.addr) else { machinery_failure("h2 connect") };
+    let jdoc = b"{\"a\":\"gear\",\"b\":1}".to_vec();
+    let fdoc = b"a=gear&b=1".to_vec();
+    let mut sid = 1u32;
+    let mut n = 0u64;
+    for (path, ct, doc, is_json) in [("/j/two", "application/json", &jdoc, true), ("/u/two", "application/x-www-form-urlencoded", &fdoc, false)] {
+        // frame scripts: Some(bytes) = a DATA frame with these bytes (possibly empty)
+        let scripts: Vec<(&str, Vec<Vec<u8>>)> = vec![
+            ("document", vec![doc.clone()]),
+            ("document, empty frame", vec![doc.clone(), vec![]]),
+            ("empty frame, document", vec![vec![], doc.clone()]),
+            ("document, empty frame, garbage", vec![doc.clone(), vec![], b"}}garbage".to_vec()]),
+            ("document, empty frame, second document", vec![doc.clone(), vec![], doc.clone()]),
+            ("half, empty frame, half", vec![doc[..doc.len() / 2].to_vec(), vec![], doc[doc.len() / 2..].to_vec()]),
+            ("half, empty frame, garbage", vec![doc[..doc.len() / 2].to_vec(), vec![], b"\xff\xfe".to_vec()]),
+            ("half only", vec![doc[..doc.len() / 2].to_vec()]),
+            ("empty frames only", vec![vec![], vec![]]),
+        ];
+        for (label, frames) in scripts {
+            n += 1;
+            cn.requests.fetch_add(1, Ordering::Relaxed);
+            let whole: Vec<u8> = frames.concat();
+            let want = if is_json { two_json(&whole) } else { two_form(&whole) };
+            let before = srv.server().app_private().total();
+            if conn.eof || sid > 60_000 {
+                conn = match connect_plain(srv.addr) { Ok(c) => c, Err(_) => machinery_failure("h2 reconnect") };
+                sid = 1;
+            }
+            let id = sid;
+            sid += 2;
+            let _ = conn.send_headers(id, "PUT", path, &[("content-type", ct)], false);
+            for (i, f) in frames.iter().enumerate() {
+                let _ = conn.send_data(id, f, i + 1 == frames.len());
+            }
+            let r = conn.read_response(id, T, &mut |s, d| tcp_timeout(s, d));
+            let after = srv.server().app_private().total();
+            let mut why: Vec<&str> = vec![];
+            match (&want, &r) {
+                (_, Err(_)) => why.push("no response"),
+                (None, Ok(resp)) => {
+                    cn.refused.fetch_add(1, Ordering::Relaxed);
+                    if !matches!(resp.status, Some(s) if (400..500).contains(&s)) {
+                        why.push("not refused");
+                    }
+                    if after != before {
+                        why.push("handler ran");
+                    }
+                }
+                (Some(w), Ok(resp)) => {
+                    cn.accepted.fetch_add(1, Ordering::Relaxed);
+                    if resp.status != Some(200) || String::from_utf8_lossy(&resp.body) != *w {
+                        why.push("decodable input refused or altered");
+                    }
+                }
+            }
+            if !why.is_empty() {
+                ctx.report(Violation {
+                    sig: json!({"kind":"input_validation","position": "body over HTTP/2", "type": path, "why": why, "reference_accepts": want.is_some()}),
+                    case: json!({"kind":"live_request","position":"h2","type": path, "what": label}),
+                    expected: match &want { None => json!({"status": "400-499", "handler_runs": 0}), Some(w) => json!({"status": 200, "body": w}) },
+                    observed: json!({"response": match &r { Ok(x) => json!({"status": x.status, "body": String::from_utf8_lossy(&x.body)}), Err(e) => json!(e) }, "handler_runs": after - before}),
+                });
+                conn.eof = true;
+            }
+        }
+    }
+    json!({"requests": n, "rule": "2 typed-body endpoints x 9 DATA-frame scripts (document / halves / garbage, with empty DATA frames before, between and after); reference = the decoder applied to the concatenation of all DATA payloads"})
+}
+
 fn main() {
     let args = parse_args();
     quiet_panics();
@@ -343,6 +437,9 @@ fn main() {
             let srv = start();
             match all_cases(true).into_iter().find(|c| c.req == req) {
                 Some(c) => run_case(ctx, &srv, &mut KeepAlive::new(srv.addr), &c, &cn, &Samples::new(0)),
+                None if case["position"] == json!("h2") => {
+                    h2_cases(ctx, &cn);
+                }
                 None => versioned_cases(ctx, &cn, &Samples::new(0)),
             }
         });
@@ -362,7 +459,9 @@ fn main() {
         }
     });
     versioned_cases(&ctx, &cn, &samples);
+    let h2 = h2_cases(&ctx, &cn);
     let cov = json!({
+        "http2_slice": h2,
         "evaluations": cn.requests.load(Ordering::Relaxed),
         "distinct_nontrivial": cn.refused.load(Ordering::Relaxed),
         "rule": "for 16 scalar types x 4 positions (path segment, query value, url-encoded body field, JSON body field): ~50 literals incl. MIN-1 / MAX+1 of every width, wrong-case and unknown enum variants, empty / padded / hex / non-ASCII digits, each as bare JSON token and as JSON string; missing / duplicated / extra fields; 17 malformed JSON documents per type; every truncation prefix, every single-byte deletion and every 0xff substitution of a valid JSON and a valid url-encoded struct body; wrong content types for typed bodies incl. a versioned route whose versions differ in content type. Reference = the standard deserializer for that carrier (FromStr / serde_urlencoded / serde_json): if it refuses -> 4xx, framework-format error body with matching request id, handler counter unchanged; if it accepts -> 200 and the echo equals the reference value. distinct_nontrivial = cases the reference refuses.",
